@@ -81,6 +81,7 @@ def prepare(parsed, i, j, with_extract=False):
         # via the gfortran replay oracle (in conclude)
         ctx = {"parsed": parsed, "i": i, "j": j, "real": [real_in, real_out], "cb": True,
                "has_cb": R.has_codeblock(nodes), "partial": R.partial_first_writes(nodes),
+               "partial_read": R.partial_first_written_and_read(nodes),
                "extract": R.real_extract_lists(parsed, i, j)}
         return ctx, [R.line("extract", R.access_items(parsed, nodes))]
     lines = [R.line("inout", parsed.export(nodes))] + [replay_line(parsed, i, j, real_in, d) for d in DELTAS]
@@ -101,7 +102,8 @@ def conclude_cb(ctx, out, force_oracle=False):
     id2n = {v: k for k, v in parsed.names.table().items()}
     model = [sorted(id2n[x] for x in m[1]), sorted(id2n[x] for x in m[2])]
     res = {"real": [real_in, real_out], "model": model, "wfw": False, "od": False, "fails": [],
-           "partial": ctx["partial"], "cb": True, "has_cb": ctx["has_cb"], "extract": ctx["extract"],
+           "partial": ctx["partial"], "partial_read": ctx["partial_read"], "cb": True, "has_cb": ctx["has_cb"],
+           "extract": ctx["extract"],
            "model_extract": m[0], "oracle": "not run"}
     accepted = ctx["extract"] is not None
     if not ctx["has_cb"] and not force_oracle:
@@ -221,8 +223,8 @@ def classify(res):
         if res["has_cb"] and res["extract"] is not None:
             return None                          # ExtractTrans must refuse CodeBlock regions
         blamed = {d.get("variable") for _, d in res["fails"]}
-        if not all(v is None or v in res["partial"] for v in blamed):
-            return None
+        if not res.get("partial_read") and not all(v is None or v in res["partial"] for v in blamed):
+            return None                          # only a partial-first-written variable that is READ can affect others
         return "C12-partial-output-not-input"
     if "dynamic-write-not-output" in kinds:
         return None                              # C12_outputs is unconditional
